@@ -556,6 +556,11 @@ func (w *Worker) runPath(fn *ssa.Function, it workItem, fuel int64, exp *Explore
 					// inside a symx.SoftOpaque scope: the path simply stops here (outcome: still running)
 					res = PathResult{Kind: "done", Msg: "stopped at an opaque (formatted symbolic number) string"}
 				}
+				if a.kind == "unsupported" && i.softOpaque && strings.HasPrefix(a.msg, "math.") {
+					// same scope: the run reached a transcendental function of a symbolic number (math.Pow,
+					// math.Mod): the path stops there, like a run that used up its soft budget
+					res = PathResult{Kind: "done", Msg: "stopped at " + a.msg}
+				}
 				if a.kind == "fuel" && i.fuelIsViolation {
 					site := strings.TrimPrefix(a.msg, "instruction budget exhausted in ")
 					func() {
